@@ -16,6 +16,7 @@ from .common import (callee, callee_name, calls, facts, for_loops, in_body, loop
                      try_ev, unparse_facts)
 
 CV = "simfile.convert"
+SPEC_DEFAULTS = {"TIMESIGNATURES": "0.000=4=4", "TICKCOUNTS": "0.000=4", "COMBOS": "0.000=1", "SPEEDS": "0.000=1.000=0.000=0", "SCROLLS": "0.000=1.000", "LABELS": "0.000=Song Start"}
 SPEC_BEHAVIORS = {"SSC_VERSION": "IGNORE", "METADATA": "IGNORE", "FILE_PATH": "IGNORE", "GAMEPLAY_EVENT": "ERROR_UNLESS_DEFAULT", "TIMING_DATA": "ERROR_UNLESS_DEFAULT"}
 ALLOWED_RAISES = {"InvalidPropertyException", "NotImplementedError"}
 
@@ -476,7 +477,26 @@ def table_completeness(ctx: Ctx) -> None:
     ctx.expect("R-TABLE", (CV, ""), "INVALID_PROPERTY_BEHAVIORS covers every PropertyType with the documented defaults", got == SPEC_BEHAVIORS and set(got) == kinds, str(got),
                f"defaults are {got}; documented {SPEC_BEHAVIORS}")
     # defaults vs blank templates
-    dp = p.const(CV, "DEFAULT_PROPERTIES")
+    try:
+        dp = p.const(CV, "DEFAULT_PROPERTIES")
+    except AnalysisError:
+        # not a literal table: when it is derived from a blank template ({k: v for k, v in <Class>.blank().items() if v}) its content can still be computed
+        node_ = p.module(CV).top.get("DEFAULT_PROPERTIES")
+        val_ = getattr(node_, "value", None)
+        derived = None
+        if isinstance(val_, ast.Call) and len(val_.args) == 2:
+            m_ = match("{$k: $v for ($k, $v) in $c.blank().items() if $v}", val_.args[1]) or match("{$k: $v for $k, $v in $c.blank().items() if $v}", val_.args[1])
+            if m_ is not None:
+                cls_ = p.resolve_expr(p.module(CV), m_["c"])
+                if isinstance(cls_, ClassInfo):
+                    derived = {k: v for k, v in blank_pairs(ctx, cls_.fq).items() if v}
+        if derived is None:
+            raise
+        extra = {k: v for k, v in derived.items() if k not in SPEC_DEFAULTS}
+        ctx.bad("R-TABLE", (CV, ""), "DEFAULT_PROPERTIES is the documented table of non-empty defaults", f"the table is derived from {src(val_.args[1], 80)} and holds {len(derived)} entries; beyond the documented "
+                f"{sorted(SPEC_DEFAULTS)} it gives defaults to {sorted(extra)}: such a property is now left out (or refused) by ERROR_UNLESS_DEFAULT against a value that is not its documented default", node=node_)
+        return
+    ctx.expect("R-TABLE", (CV, ""), "DEFAULT_PROPERTIES is the documented table of non-empty defaults", dict(dp) == SPEC_DEFAULTS, str(dict(dp)), f"DEFAULT_PROPERTIES is {dict(dp)}; documented {SPEC_DEFAULTS}")
     ctx.expect("R-TABLE", (CV, ""), "the default of an unlisted property is the empty string", isinstance(dp, DefaultDictVal) and dp.default == "", "", f"{getattr(dp, 'default', None)!r}")
     n = 0
     for level, tbl, tmpl in (("simfile", smt, blank_pairs(ctx, "simfile.ssc.SSCSimfile")), ("chart", inv.get(ClassRef("simfile.sm.SMChart"), {}), blank_pairs(ctx, "simfile.ssc.SSCChart"))):
